@@ -17,7 +17,8 @@ def load_file(
         with open(file_path, f"rb{read_mode[1:]}") as in_filehandler:
             if 't' in read_mode:
                 if isinstance(EOL, str):
-                    EOL = EOL.encode("utf-8")
+                    # as save_file wrote it: in the encoding of the file, without the signature (BOM) of the codec
+                    EOL = EOL.encode(encoding)[len(''.encode(encoding)):]
                 elif not isinstance(EOL, bytes):
                     raise TypeError(f"EOL='{EOL}' could be str or bytes for read_mode='{read_mode}'")
                 return in_filehandler.read().replace(EOL, b'\n').decode(encoding)
@@ -36,7 +37,8 @@ def load_lines(
 ) -> typing.Generator:
     if 'b' in read_mode or EOL not in ('\r\n', '\n', '\r'):
         if isinstance(EOL, str):
-            EOL = EOL.encode("utf-8")
+            # as save_file wrote it: in the encoding of the file, without the signature (BOM) of the codec
+            EOL = EOL.encode(encoding)[len(''.encode(encoding)):]
         elif not isinstance(EOL, bytes):
             raise TypeError(f"EOL='{EOL}' could be str or bytes for read_mode='{read_mode}'")
         for line in load_file(file_path, read_mode='b').split(EOL):
